@@ -38,6 +38,7 @@ var cliPrograms = map[string]string{
 	"findnone": "find all 'QQQ'",
 	"replace":  "replace all 'ab' with 'X' matchNumber",
 	"failing":  "find all 'ab",
+	"multi":    "find all 'ab' find all 'x' or 'z'",
 }
 
 var cliFiles = map[string]string{"f1.txt": "ab ab\nxx ab", "f2.txt": "zz\nab", "g.dat": "ab"}
